@@ -34,7 +34,15 @@ def _fold_settings(rec, clause):
             f"sys.exit(replay_fold_settings({name!r}, json.loads({json.dumps(json.dumps(model, default=str))})))\n")
 
 
+def _outer_reduce(rec, clause):
+    m = re.match(r"C02\.opt\.outer_reduce_flatten\.rank(\d)\.o(\d)\.r(\d)", rec["id"])
+    model = (clause.get("model") or {}).get("inputs", {})
+    return ("import sys, json\nfrom native.replay_lib import replay_outer_reduce_flatten\n"
+            f"sys.exit(replay_outer_reduce_flatten({m.group(1)}, {m.group(2)}, {m.group(3)}, json.loads({json.dumps(json.dumps(model, default=str))})))\n")
+
+
 GENERATORS = [
+    (re.compile(r"^C02\.opt\.outer_reduce_flatten"), _outer_reduce),
     (re.compile(r"^C02\.fold_settings\."), _fold_settings),
     (re.compile(r"^C(03|04|05|07)\.rule\."), _rule),
     (re.compile(r"^C05\.Scope\.__iter__"), _scope_iter),
